@@ -1,11 +1,137 @@
 import Driver.Util
-/- line-protocol commands of the Codec family (stub: filled in by the family's build) -/
+import AsyncFix.Model.Codec.Decode
+import AsyncFix.Model.Codec.Encode
+import AsyncFix.Model.Codec.Reader
+import AsyncFix.Generated.Proto
+import AsyncFix.Lemmas.CodecSpec
+/-!
+`codec.*` commands.  Containers travel as comma separated prefix text:
+  cont := `I,<k>,node…`      node := `L,<tag>,<val>` | `E,<tag>` | `G,<tag>,<n>,cont…`
+(tags / values are `x<hex>` tokens).
+-/
 namespace Driver.Codec
+open AsyncFix.Model.Codec
 
 structure St where
   unit : Unit := ()
 
+def strBytes (s : String) : Bytes := s.toUTF8.toList.map (·.toNat)
+
+def beginString : Bytes := AsyncFix.Generated.Proto.beginStringBytes
+def tbl : Tbl := AsyncFix.Generated.Proto.groupsBytes
+
+mutual
+def showNode : Node → List String
+  | .leaf t v => ["L", Driver.bytesTok t, Driver.bytesTok v]
+  | .err t => ["E", Driver.bytesTok t]
+  | .group t items => ["G", Driver.bytesTok t, toString items.length] ++ showItems items
+def showItems : List (List Node) → List String
+  | [] => []
+  | it :: rest => showCont it ++ showItems rest
+def showNodes : List Node → List String
+  | [] => []
+  | n :: rest => showNode n ++ showNodes rest
+def showCont (c : List Node) : List String := ["I", toString c.length] ++ showNodes c
+end
+
+def contTok (c : Cont) : String := ",".intercalate (showCont c)
+
+/-- recursive-descent parser with fuel (token count bounds the depth) -/
+def parseCont : Nat → List String → Option (Cont × List String)
+  | 0, _ => none
+  | fuel + 1, "I" :: k :: rest => do
+    let n ← k.toNat?
+    parseNodes fuel n rest
+  | _, _ => none
+where
+  parseNodes : Nat → Nat → List String → Option (Cont × List String)
+    | _, 0, toks => some ([], toks)
+    | 0, _, _ => none
+    | fuel + 1, n + 1, toks => do
+      let (nd, rest) ← parseNode fuel toks
+      let (nds, rest') ← parseNodes fuel n rest
+      pure (nd :: nds, rest')
+  parseNode : Nat → List String → Option (Node × List String)
+    | _, "L" :: t :: v :: rest => do
+      let t ← Driver.tokBytes t
+      let v ← Driver.tokBytes v
+      pure (.leaf t v, rest)
+    | _, "E" :: t :: rest => do
+      let t ← Driver.tokBytes t
+      pure (.err t, rest)
+    | fuel + 1, "G" :: t :: n :: rest => do
+      let t ← Driver.tokBytes t
+      let n ← n.toNat?
+      let (items, rest') ← parseItems fuel n rest
+      pure (.group t items, rest')
+    | _, _ => none
+  parseItems : Nat → Nat → List String → Option (List Cont × List String)
+    | _, 0, toks => some ([], toks)
+    | 0, _, _ => none
+    | fuel + 1, n + 1, toks => do
+      let (c, rest) ← parseCont fuel toks
+      let (cs, rest') ← parseItems fuel n rest
+      pure (c :: cs, rest')
+
+def tokCont (t : String) : Option Cont :=
+  let toks := t.splitOn ","
+  match parseCont (2 * toks.length + 2) toks with
+  | some (c, []) => some c
+  | _ => none
+
+def showDec : DecRes → String
+  | .msg m n raw => s!"msg {n} {Driver.bytesTok raw} {Driver.bytesTok m.mtype} {contTok m.body}"
+  | .none n => s!"none {n}"
+  | .raised k => s!"raised {k.name}"
+
 def handle (st : St) (cmd : String) (args : List String) : St × String :=
-  (st, "bad-op")
+  match cmd, args with
+  | "decode", [raw] =>
+    match Driver.tokBytes raw with
+    | some b => (st, showDec (decode beginString tbl b))
+    | none => (st, "bad-op")
+  | "wf", [c] =>
+    -- the hypothesis of the round-trip theorem (C01), evaluated on a concrete container
+    match tokCont c with
+    | some c => (st, if wfTop tbl c then "wf" else "not-wf")
+    | none => (st, "bad-op")
+  | "pyint", [s] =>
+    match Driver.tokBytes s with
+    | some b => (st, match pyInt b with | some v => s!"some {v}" | none => "none")
+    | none => (st, "bad-op")
+  | "encode", [mt, c, snd, tgt, nout, raw, now] =>
+    match Driver.tokBytes mt, tokCont c, Driver.tokBytes snd, Driver.tokBytes tgt, nout.toInt?, Driver.tokBytes now with
+    | some mt, some c, some snd, some tgt, some nout, some now =>
+      let (r, s') := encode beginString { mtype := mt, body := c } { sender := snd, target := tgt, nextOut := nout } (raw == "1") now
+      match r with
+      | .ok f => (st, s!"ok {Driver.bytesTok f} {s'.nextOut}")
+      | .error k => (st, s!"err {k.name} {s'.nextOut}")
+    | _, _, _, _, _, _ => (st, "bad-op")
+  | "send", [mt, c, snd, tgt, nout, now] =>
+    -- the encode + latin-1 step of send_msg
+    match Driver.tokBytes mt, tokCont c, Driver.tokBytes snd, Driver.tokBytes tgt, nout.toInt?, Driver.tokBytes now with
+    | some mt, some c, some snd, some tgt, some nout, some now =>
+      let (r, s') := encodeWire beginString { mtype := mt, body := c } { sender := snd, target := tgt, nextOut := nout } now
+      match r with
+      | .ok f => (st, s!"ok {Driver.bytesTok f} {s'.nextOut}")
+      | .error k => (st, s!"err {k.name} {s'.nextOut}")
+    | _, _, _, _, _, _ => (st, "bad-op")
+  | "feed", chunks =>
+    match chunks.mapM Driver.tokBytes with
+    | none => (st, "bad-op")
+    | some cs =>
+      -- feed chunk by chunk, stop at the first raise / stall
+      let rec go (buf : Bytes) (acc : List (Msg × Bytes)) : List Bytes → Bytes × List (Msg × Bytes) × String
+        | [] => (buf, acc, "-")
+        | c :: rest =>
+          let r := feed beginString tbl buf c
+          match r.raised, r.stalled with
+          | some k, _ => (r.buf, acc ++ r.delivered, "raised:" ++ k.name)
+          | none, true => (r.buf, acc ++ r.delivered, "stalled")
+          | none, false => go r.buf (acc ++ r.delivered) rest
+      let (buf, del, flag) := go [] [] cs
+      let ds := del.map fun (m, raw) => s!" D {Driver.bytesTok m.mtype} {contTok m.body} {Driver.bytesTok raw}"
+      (st, s!"buf {Driver.bytesTok buf} {flag}" ++ String.join ds)
+  | _, _ => (st, "bad-op")
 
 end Driver.Codec
